@@ -71,6 +71,8 @@ use std::collections::{BTreeMap, HashSet};
 use std::path::{Path, PathBuf};
 use std::sync::{Arc, Mutex};
 
+mod cli;
+
 #[derive(Clone, Copy, PartialEq)]
 pub enum Profile {
     C06,
@@ -2745,6 +2747,8 @@ pub fn run(ctx: &mut Ctx, profile: Profile) -> &'static str {
     entry_streams(ctx, &fixtures, profile, tag);
     builder_streams(ctx, tag);
     config_stream(ctx, &root, tag);
+    // the command-line entry (harness/src/c06/cli.rs)
+    cli::cli_stream(ctx, profile, tag);
 
     // ---- generated batches ----
     let n_cases = match profile {
